@@ -19,6 +19,7 @@ Template directives (all are `//@...` comment lines inside an ordinary .rs file)
       //@subst <old> => <new>  (R12) replace the unique occurrence of <old>; blanks match any whitespace,
                                `...` matches any bracket-balanced text
       //@epilogue              following plain lines (ghost code) are placed at the end of the body (unit-returning fns)
+      //@sigsubst <old> => <new>  (R7) replace a type in the signature (color_eyre::Result -> local Result<T, VfError>)
       //@assume                keep the contract, replace the body by an external_body stub
   //@arms <src> <Impl>::<name> <scrutinee>          split `match <scrutinee> {..}` into one fn per arm
       (same sub-directives; //@contract is shared by all arms and by the generated dispatcher)
@@ -55,6 +56,7 @@ class Spec:
         self.prelude = []
         self.epilogue = []
         self.props = []
+        self.sigsubst = []
 
     def clone_for_arm(self, arm):
         s = Spec()
@@ -65,6 +67,7 @@ class Spec:
         s.prelude = list(self.prelude)
         s.epilogue = list(self.epilogue)
         s.props = list(self.props)
+        s.sigsubst = list(self.sigsubst)
         if arm:
             s.prelude += arm.prelude
             s.epilogue += arm.epilogue
@@ -215,6 +218,9 @@ class Expander:
                     sink = cur.epilogue
                 elif key == 'props':
                     cur.props = arg.split()
+                elif key == 'sigsubst':
+                    old, new = arg.split(' => ', 1)
+                    cur.sigsubst.append((old.strip(), new.strip()))
                 elif key == 'loop':
                     sink = cur.loops.setdefault(int(arg), [])
                 elif key in ('before', 'after'):
@@ -223,9 +229,9 @@ class Expander:
                     cur.inserts.append((key, int(k), text.strip(), sink))
                 elif key == 'rewrite':
                     cur.rewrites.append(arg.split())
-                elif key == 'subst':
-                    old, new = arg.split(' => ', 1)
-                    cur.rewrites.append(['R12', old.strip(), new.strip()])
+                elif key in ('subst', 'substall'):
+                    old, new = arg.split(' => ', 1) if ' => ' in arg else (arg[:-3], '') if arg.endswith(' =>') else (arg, '')
+                    cur.rewrites.append(['R12' if key == 'subst' else 'R12ALL', old.strip(), new.strip()])
                 elif key == 'assume':
                     cur.assume = True
                 elif key == 'arm':
@@ -254,7 +260,7 @@ class Expander:
                     pass
             else:
                 text = rules.apply(name, text, rw[1:], label)
-                self.rules_used.add(name)
+                self.rules_used.add('R12' if name == 'R12ALL' else name)
         # ghost insertions first (line based), then loop clauses (bracket based)
         for where, k, anchor, glines in spec.inserts:
             ls = text.split('\n')
@@ -285,10 +291,12 @@ class Expander:
     def signature(self, sig, spec, newname=None, extra_requires=None):
         """sig: real text from `fn` to before `{`.  Returns the Verus header."""
         sig = ' '.join(rsx.strip_comments(sig).split())
-        m = re.match(r'fn\s+(\w+)\s*(<[^>]*>)?\s*\((.*)\)\s*(->\s*(.+))?$', sig)
-        if not m:
-            raise LostAnchor('cannot parse signature: %s' % sig)
-        name, generics, params, _, ret = m.groups()
+        for old, new in spec.sigsubst:
+            if old not in sig:
+                raise LostAnchor('signature text `%s` not found in: %s' % (old, sig))
+            sig = sig.replace(old, new)
+            self.rules_used.add('R7')
+        name, generics, params, ret = split_sig(sig)
         params = params.strip().rstrip(',')
         if spec.ghost:
             params = (params + ', ' if params else '') + spec.ghost
@@ -420,13 +428,12 @@ class Expander:
         top, armspecs = self.parse_block(block)
         body = rsx.Body(s.body(fn))
         ms, mo, mc, arms = body.top_match(re.escape(scrut))
-        # the match must be the whole function body apart from a leading `use ...;`
+        # Statements before the match (prefix) and after it (suffix) are copied into every arm
+        # function: for a given opcode the original body executes prefix; <that arm>; suffix.
         prefix = rsx.strip_comments(body.text[:ms]).strip()
         suffix = rsx.strip_comments(body.text[mc + 1:]).strip()
-        if suffix not in ('', ';'):
-            raise LostAnchor('%s: code after the match: %s' % (qual, suffix[:40]))
-        if prefix and not re.fullmatch(r'(use [\w:]+(::\*)?;\s*)*', prefix):
-            raise LostAnchor('%s: code before the match: %s' % (qual, prefix[:40]))
+        if suffix.startswith(';'):
+            suffix = suffix[1:].strip()
         used = set()
         dispatch = []
         fname = qual.split('::')[1]
@@ -438,8 +445,11 @@ class Expander:
             if np in armspecs:
                 used.add(np)
             ident = '%s__%s' % (fname, pat_ident(np))
-            cond = '(' + ' || '.join('%s == OpcodeKind::%s' % (scrut, v.strip()) for v in np.split('|')) + ')' \
-                if np != '_' else None
+            if np != '_':
+                cond = '(' + ' || '.join('%s == OpcodeKind::%s' % (scrut, v.strip()) for v in np.split('|')) + ')'
+            else:
+                others = [v.strip() for p2, _, _ in arms for v in norm_pat(p2).split('|') if norm_pat(p2) != '_']
+                cond = '!(' + ' || '.join('%s == OpcodeKind::%s' % (scrut, v) for v in others) + ')'
             hdr, _ = self.signature(fn['sig'], aspec, ident, cond)
             label = '%s[%s]' % (qual, np)
             vname = '%s::%s' % (qual.split('::')[0], ident)
@@ -451,9 +461,14 @@ class Expander:
                 self.rules_used.add('R8')
             else:
                 inner = arm[1:-1] if is_block else ' ' + arm + ' '
-                text = self.weave(inner, aspec, label)
+                if suffix:
+                    inner = inner.rstrip()
+                    if not is_block and not inner.endswith(';'):
+                        inner += ';'
+                    inner = '{' + inner + '}\n' + suffix + '\n'
+                text = self.weave((prefix + '\n' if prefix else '') + inner, aspec, label)
                 self.out.append(hdr)
-                self.out.append('{' + (prefix + '\n' if prefix else '') + text + '}')
+                self.out.append('{' + text + '}')
             self.end(vname)
             self.record(rel, qual, s, fn, vname, aspec.assume, arm=np, props=aspec.props)
             if self.vacuity and not aspec.assume:
@@ -462,7 +477,7 @@ class Expander:
                 self._twin = False
                 self.begin(vname + '__vac')
                 self.out.append(hdr2)
-                self.out.append('{' + (prefix + '\n' if prefix else '') + text + '}')
+                self.out.append('{' + text + '}')
                 self.end(vname + '__vac')
                 self.record(rel, qual, s, fn, vname + '__vac', False, arm='<vacuity twin>', props=['VACUITY'])
             dispatch.append((np, ident))
@@ -471,8 +486,7 @@ class Expander:
             raise LostAnchor('%s: template arms not found in source: %s' % (qual, sorted(missing)))
         # dispatcher: verified against the shared contract
         hdr, name = self.signature(fn['sig'], top)
-        m = re.match(r'fn\s+\w+\s*(<[^>]*>)?\s*\((.*)\)', ' '.join(rsx.strip_comments(fn['sig']).split()))
-        params = [p.strip() for p in split_top(m.group(2)) if p.strip()]
+        params = [p.strip() for p in split_top(split_sig(' '.join(rsx.strip_comments(fn['sig']).split()))[2]) if p.strip()]
         argnames = []
         for p in params:
             if p in ('&self', '&mut self', 'self', 'mut self'):
@@ -493,6 +507,22 @@ class Expander:
         self.end(vname)
         self.record(rel, qual, s, fn, vname, False, arm='<dispatcher>', props=top.props)
         self.rules_used.add('R10')
+
+
+def split_sig(sig):
+    """`fn name<G>(params) -> ret`  ->  (name, generics, params, ret) using bracket matching."""
+    m = re.match(r'fn\s+(\w+)\s*(<[^>(]*>)?\s*\(', sig)
+    if not m:
+        raise LostAnchor('cannot parse signature: %s' % sig)
+    o = m.end() - 1
+    c = rsx.match_close(sig, o)
+    rest = sig[c + 1:].strip()
+    ret = None
+    if rest.startswith('->'):
+        ret = rest[2:].strip()
+    elif rest:
+        raise LostAnchor('cannot parse signature tail: %s' % rest)
+    return m.group(1), m.group(2), sig[o + 1:c], ret
 
 
 def split_top(s):
